@@ -117,6 +117,7 @@ def check(run):
     run.ok('C16-R4', 'inline memo rule', 'self-check on the built-in example: late reset and missing reset reported, correct mutator accepted', sample=False)
     _filter_range(run, prog)
     _unconditional_clear(run, prog)
+    _lazy_getters_compute(run, prog)
     from ..cachekey import check_caches
     check_caches(run, [m for k, m in prog.modules.items() if k.startswith('cherab.tools.spectroscopy')], 'C16-K', prog=prog)
 
@@ -385,6 +386,60 @@ def _all_widths_min(e, v):
 def const_index(sl):
     from ..program import const_fold
     return const_fold(sl) is not None
+
+
+def _lazy_getters_compute(run, prog):
+    """R7: a property that hands out a field which the invalidation routines / setters reset to None computes it first: the getter
+    contains 'if self.<field> is None: self._update...()' before the return (a getter that lost the call, or whose test was inverted,
+    returns None or a stale value)."""
+    run.describe('C16-R7', 'getters of lazily computed fields test the sentinel for None and run the builder before returning')
+    from ..inline import prep, class_lookup
+    n = 0
+    for ci in sorted(prog.classes.values(), key=lambda c: c.qual):
+        if not ci.mod.relpath.startswith('cherab/tools/spectroscopy/'):
+            continue
+        sentinels = set()
+        for c in prog.mro(ci):
+            for mname, m in list(c.methods.items()) + list(c.setters.items()):
+                if mname == '__init__':
+                    continue
+                for st in ast.walk(m):
+                    if isinstance(st, ast.Assign) and norm(st.value) == 'None':
+                        for t in st.targets:
+                            if isinstance(t, ast.Attribute) and norm(t.value) == 'self':
+                                sentinels.add(t.attr)
+        for gname, g in sorted(ci.getters.items()):
+            rets = [r for r in g.body if isinstance(r, ast.Return) and isinstance(r.value, ast.Attribute) and norm(r.value.value) == 'self']
+            if len(rets) != 1 or rets[0].value.attr not in sentinels:
+                continue
+            fld = rets[0].value.attr
+            n += 1
+            run.subject('C16-R7')
+            try:
+                keep_ = tuple(n_ for k_ in prog.mro(ci) for n_ in k_.methods if n_.startswith(('_update', '_clear', 'create')))
+                g2 = prep(g, class_lookup(prog, ci), keep=keep_)
+            except Exception:
+                g2 = g
+            good = False
+            inverted = False
+            for st in ast.walk(g2):
+                if isinstance(st, ast.If) and isinstance(st.test, ast.Compare) and len(st.test.ops) == 1 and norm(st.test.left) == 'self.' + fld \
+                        and norm(st.test.comparators[0]) == 'None':
+                    calls = [c for x in st.body for c in ast.walk(x) if isinstance(c, ast.Call) and (dotted(c.func) or '').startswith('self._update')]
+                    if isinstance(st.test.ops[0], ast.Is) and calls:
+                        good = True
+                    elif isinstance(st.test.ops[0], ast.IsNot):
+                        inverted = True
+            K = '%s|%s|%s|lazy' % (ci.mod.name, ci.name, gname)
+            if good:
+                run.ok('C16-R7', '%s.%s' % (ci.name, gname), 'if self.%s is None: self._update...()' % fld, sample=False)
+            elif inverted:
+                run.fail('C16-R7', K, ci.mod.relpath, g.lineno, '%s.%s tests self.%s "is not None" before running the builder: it recomputes what is '
+                         'there and returns None when the value has been invalidated' % (ci.name, gname, fld))
+            else:
+                run.fail('C16-R7', K, ci.mod.relpath, g.lineno, '%s.%s returns self.%s, which the setters reset to None, without running the builder when '
+                         'it is None: after a parameter change it returns None (or whatever another getter happened to compute)' % (ci.name, gname, fld))
+    run.floor('C16-R7', 4)
 
 
 def _unconditional_clear(run, prog):
